@@ -153,8 +153,11 @@ def choiceOf (j : Json) : Except String FieldChoice := do
 def eventOf (j : Json) : Except String Event := do
   let data ← j.getObjValAs? (Array String) "data"
   let dcs ← (← j.getObjValAs? (Array Json) "dc").toList.mapM choiceOf
+  let after ← match j.getObjValAs? (Array Json) "after" with
+    | .ok a => a.toList.mapM ignoredOf
+    | .error _ => pure []
   return { name := (optStr j "name").map String.toList, data := data.toList.map String.toList,
-           nameChoice := ← choiceOf (← j.getObjVal? "nc"), dataChoices := dcs }
+           nameChoice := ← choiceOf (← j.getObjVal? "nc"), dataChoices := dcs, after := after }
 
 def handleRender (j : Json) : Except String Json := do
   let evs ← (← j.getObjValAs? (Array Json) "events").toList.mapM eventOf
